@@ -1019,6 +1019,9 @@ pub fn run_history(case: &HistCase, mon: &mut dyn Monitor, ctx: &Ctx, out: &mut 
             None => Effect::None,
         };
         out.count(&format!("op.{}.{}", act.name(), if res.ok { "ok" } else { "err" }));
+        if it.w.cfg.native && matches!(act, Act::Open { .. } | Act::Close { .. } | Act::Deposit { .. }) {
+            out.count(&format!("native.{}.{}", act.name(), if res.ok { "ok" } else { "err" }));
+        }
         if !res.ok && std::env::var("PVERIF_ERRSTATS").is_ok() {
             let e: String = res.err.chars().filter(|c| !c.is_ascii_digit()).map(|c| if c == ' ' { '_' } else { c }).take(70).collect();
             out.count(&format!("err.{}.{}", act.name(), e));
